@@ -256,6 +256,41 @@ def run(rep, tier):
         rep.ok("C16.R3", ha, "--pika:ini entries are merged into the configuration before any handler runs")
     else:
         rep.bad("C16.R3", ha, ha.loc, "ini-first", "--pika:ini entries must be merged (cfgmap.add) before the handlers read the configuration")
+    # reconfigure() parses ini_config in order and the last line for a key wins: the raw --pika:ini lines go in before
+    # any resolved value is written back, otherwise a raw line overrides the value resolved from the dedicated option
+    from engine.kinds import reaching_init
+    from engine.core import forward
+    def raw_append(e, pos):
+        if e.get("k") != "call" or "ini_config" not in T(e):
+            return False
+        if callee_short(e) not in ("copy", "move", "insert", "push_back", "emplace_back", "append_range"):
+            return False
+        for v in re.findall(r"\b([A-Za-z_]\w*)\.begin\(\)", T(e)) + ([P(e["args"][0])] if callee_short(e) in ("push_back", "emplace_back") and e.get("args") else []):
+            ini_ = reaching_init(ha, v, pos)
+            if ini_ is not None and "pika:ini" in T(ini_):
+                return True
+            ws_ = [x for _, _, x in ha.all_events() if x.get("k") in ("write", "call") and "pika:ini" in T(x) and re.search(r"\b%s\b" % re.escape(v), T(x))]
+            if ws_:
+                return True
+        return False
+    wb_events = set(id(ev) for lst in W.values() for _, _, ev in lst)
+    late = []
+
+    def tr_(st, ev, pos):
+        if id(ev) in wb_events:
+            return True
+        if st and raw_append(ev, pos):
+            late.append((pos, ev))
+        return st
+    forward(ha, False, tr_, None, lambda a, b: a or b, eh=False)
+    raws = [(b, i, ev) for b, i, ev in ha.all_events() if raw_append(ev, (b, i))]
+    if not raws:
+        raise AnalysisBroken("handle_arguments: the place where --pika:ini lines enter ini_config was not found")
+    if late:
+        rep.bad("C16.R3", ha, loc_of(late[0][1]), "ini-after-writeback", "the raw --pika:ini lines are appended to ini_config after resolved values were written back: reconfigure() "
+                "lets the last line win, so --pika:ini=pika.os_threads=3 overrides --pika:threads=5 in the running runtime (while the parsed state reports 5)")
+    else:
+        rep.ok("C16.R3", ha, "the raw --pika:ini lines enter ini_config before any resolved value is written back (%d append site(s))" % len(raws))
     pairs = {"handle_process_mask": "pika.process_mask", "handle_scheduler": "pika.scheduler", "handle_affinity": "pika.affinity", "handle_affinity_bind": "pika.bind",
              "handle_pu_step": "pika.pu_step", "handle_pu_offset": "pika.pu_offset", "handle_numa_sensitive": "pika.numa_sensitive",
              "handle_num_threads": "pika.os_threads", "handle_num_cores": "pika.cores"}
